@@ -132,7 +132,7 @@ class SolveGroupSwizzlerPartsel(object):
                 ret = [ExprBinModel(
                     ExprFieldRefModel(f),
                     BinExprType.Eq,
-                    ExprLiteralModel(val, f.is_signed, f.width))]
+                    self._dist_literal(f, val))]
             else:
                 # Single value
                 val = target_w.rng_lhs.val()
@@ -141,7 +141,7 @@ class SolveGroupSwizzlerPartsel(object):
                 ret = [ExprBinModel(
                     ExprFieldRefModel(f),
                     BinExprType.Eq,
-                    ExprLiteralModel(int(val), f.is_signed, f.width))]
+                    self._dist_literal(f, val))]
         else:
             if f in bound_m.keys():
                 f_bound = bound_m[f]
@@ -149,6 +149,13 @@ class SolveGroupSwizzlerPartsel(object):
                     ret = self.create_rand_domain_constraint(f, f_bound)
                     
         return ret
+    
+    def _dist_literal(self, f, val):
+        # A listed value may lie outside the field's type (the request 
+        # is then simply not satisfiable): the literal must be wide 
+        # enough to hold it
+        val = int(val)
+        return ExprLiteralModel(val, f.is_signed, max(f.width, val.bit_length()+1))
     
     def create_rand_domain_constraint(self, 
                 f : FieldScalarModel, 
